@@ -75,7 +75,7 @@ def default_argdom(fn, max_combos=400):
 
 
 def n_oracles(case):
-    p = len(case["opqdom"]) * len(case.get("stdom", [[0]])) * len(case.get("descdom", [[]]))
+    p = len(case["opqdom"]) * len(case.get("stdom", [[0]])) * len(case.get("descdom", [[]])) * len(case.get("coredom", [0]))
     for d in case["argdom"]:
         p *= len(d)
     return p
@@ -84,10 +84,10 @@ def n_oracles(case):
 def oracle_at(case, oi):
     idx = oi - 1
     vals = []
-    for d in case["argdom"] + [case["opqdom"], case.get("stdom", [[0]]), case.get("descdom", [[]])]:
+    for d in case["argdom"] + [case["opqdom"], case.get("stdom", [[0]]), case.get("descdom", [[]]), case.get("coredom", [0])]:
         vals.append(d[idx % len(d)])
         idx //= len(d)
-    return {"args": vals[:-3], "opq": vals[-3], "st": vals[-2], "desc": vals[-1]}
+    return {"args": vals[:-4], "opq": vals[-4], "st": vals[-3], "desc": vals[-2], "core": vals[-1]}
 
 
 def run_pair_batch(pid, contract, cases, tag="batch", workers=16, timeout=3000, coverage=False, extra_batch=None):
@@ -99,7 +99,7 @@ def run_pair_batch(pid, contract, cases, tag="batch", workers=16, timeout=3000, 
     for c in cases:
         keys, accs = regkeys_of([c["A"], c["B"]])
         bc = {"name": c["name"], "A": c["A"], "B": c["B"], "argdom": c["argdom"], "opqdom": c["opqdom"],
-              "stdom": c.get("stdom", [[0]]), "descdom": c.get("descdom", [[]]), "regkeys": keys, "accs": accs}
+              "stdom": c.get("stdom", [[0]]), "descdom": c.get("descdom", [[]]), "coredom": c.get("coredom", [0]), "regkeys": keys, "accs": accs}
         for k in c.get("extra", {}):
             bc[k] = c["extra"][k]
         batch_cases.append(bc)
@@ -130,7 +130,7 @@ def replay_trace(pid, contract, case, oi, workers=1):
     orc = oracle_at(case, oi)
     keys, accs = regkeys_of([case["A"], case["B"]])
     bc = {"name": case["name"], "A": case["A"], "B": case["B"], "argdom": [[v] for v in orc["args"]],
-          "opqdom": [orc["opq"]], "stdom": [orc["st"]], "descdom": [orc["desc"]], "regkeys": keys, "accs": accs}
+          "opqdom": [orc["opq"]], "stdom": [orc["st"]], "descdom": [orc["desc"]], "coredom": [orc["core"]], "regkeys": keys, "accs": accs}
     for k in case.get("extra", {}):
         bc[k] = case["extra"][k]
     with open(path, "w") as f:
